@@ -99,7 +99,7 @@ Verdict eval_hola(const Case &c) {
     }
     for (size_t i = 0; i < n; i++) for (size_t j = i + 1; j < n; j++) {
         double ox = std::min(bb[i].X, bb[j].X) - std::max(bb[i].x, bb[j].x), oy = std::min(bb[i].Y, bb[j].Y) - std::max(bb[i].y, bb[j].y);
-        if (ox > 1e-6 && oy > 1e-6) { v.fail(fmt("nodes %zu and %zu overlap by %.6g x %.6g", i, j, ox, oy), "node-overlap"); return v; }
+        if (ox > 1e-6 && oy > 1e-6) { v.fail(fmt("nodes %zu and %zu overlap by %.6g x %.6g", i, j, ox, oy), cyclic ? "node-overlap" : "F25-pure-tree-layout"); return v; }
     }
     // routes
     double iel = g->getIEL();
@@ -109,16 +109,18 @@ Verdict eval_hola(const Case &c) {
         std::vector<Avoid::Point> r = e->getRoute();
         auto ends = e->getEndIds();
         int a = idx[ends.first], b = idx[ends.second];
-        if (r.size() < 2) { v.fail(fmt("edge %d-%d has a route of %zu points", a, b, r.size()), "no-route"); return v; }
+        if (r.size() < 2) { v.fail(fmt("edge %d-%d has a route of %zu points", a, b, r.size()), (cyclic ? "no-route" : "F25-pure-tree-layout")); return v; }
         auto inb = [&](const BoundingBox &q, const Avoid::Point &pt) { return pt.x >= q.x - pad && pt.x <= q.X + pad && pt.y >= q.y - pad && pt.y <= q.Y + pad; };
         bool fwd = inb(bb[a], r.front()) && inb(bb[b], r.back()), rev = inb(bb[b], r.front()) && inb(bb[a], r.back());
-        if (!fwd && !rev) { v.fail(fmt("edge %d-%d: route from (%g,%g) to (%g,%g) does not join its end nodes (padding %g)", a, b, r.front().x, r.front().y, r.back().x, r.back().y, pad), "route-ends"); return v; }
+        if (!fwd && !rev) { v.fail(fmt("edge %d-%d: route from (%g,%g) to (%g,%g) does not join its end nodes (padding %g)", a, b, r.front().x, r.front().y, r.back().x, r.back().y, pad), (cyclic ? "route-ends" : "F25-pure-tree-layout")); return v; }
         for (size_t k = 1; k < r.size(); k++) {
-            if (r[k].x != r[k - 1].x && r[k].y != r[k - 1].y) { v.fail(fmt("edge %d-%d: segment (%.17g,%.17g)-(%.17g,%.17g) is not axis-parallel", a, b, r[k - 1].x, r[k - 1].y, r[k].x, r[k].y), "diagonal-segment"); return v; }
+            // HOLA rotates and translates the finished drawing, so 'horizontal' is up to floating-point rounding of those transforms
+            double tolAP = 1e-9 * std::max({1.0, std::fabs(r[k].x), std::fabs(r[k].y)});
+            if (std::fabs(r[k].x - r[k - 1].x) > tolAP && std::fabs(r[k].y - r[k - 1].y) > tolAP) { v.fail(fmt("edge %d-%d: segment (%.17g,%.17g)-(%.17g,%.17g) is not axis-parallel", a, b, r[k - 1].x, r[k - 1].y, r[k].x, r[k].y), (cyclic ? "diagonal-segment" : "F25-pure-tree-layout")); return v; }
             double ax = std::min(r[k].x, r[k - 1].x), bx = std::max(r[k].x, r[k - 1].x), ay = std::min(r[k].y, r[k - 1].y), by = std::max(r[k].y, r[k - 1].y);
             for (size_t u = 0; u < n; u++) {
                 if ((int)u == a || (int)u == b) continue;
-                if (bx > bb[u].x + 1e-6 && ax < bb[u].X - 1e-6 && by > bb[u].y + 1e-6 && ay < bb[u].Y - 1e-6) { v.fail(fmt("edge %d-%d: segment (%g,%g)-(%g,%g) passes through node %zu", a, b, r[k - 1].x, r[k - 1].y, r[k].x, r[k].y, u), "route-through-node"); return v; }
+                if (bx > bb[u].x + 1e-6 && ax < bb[u].X - 1e-6 && by > bb[u].y + 1e-6 && ay < bb[u].Y - 1e-6) { v.fail(fmt("edge %d-%d: segment (%g,%g)-(%g,%g) passes through node %zu", a, b, r[k - 1].x, r[k - 1].y, r[k].x, r[k].y, u), (cyclic ? "route-through-node" : "F25-pure-tree-layout")); return v; }
             }
         }
     }
